@@ -14,7 +14,7 @@ from ..faults import Faults, make_callback
 from ..harness import Check
 from ..snap import abs_value
 
-UNIVERSES = ["str", "int", "tuple_keyfn", "kitem", "kitem_typed", "str_typed", "tuple_typed", "mod_keyfn"]
+UNIVERSES = ["str", "int", "tuple_keyfn", "kitem", "kitem_typed", "str_typed", "tuple_typed", "mod_keyfn", "repr_keyfn"]
 
 
 def make_kitem_class():
@@ -132,7 +132,10 @@ class Env:
         if u == "mod_keyfn":
             return src.choice([0, 1, 2, 3, 4, 6])
         if u == "repr_keyfn":  # falsy and truthy items, identified by an explicit key function
-            return src.choice([0, 1, "", "a", ["tuple", []], ["tuple", [1]]])
+            # (1, 1.0 and True are equal to each other and have three different keys)
+            # (for lists only: against a built-in set operand equal items are one element, whatever their keys)
+            extra = [["float", "1.0"], True] if self.container == "list" else []
+            return src.choice([0, 1, "", "a", ["tuple", []], ["tuple", [1]]] + extra)
         if u in ("tuple_keyfn", "tuple_typed"):
             return ["tuple", [src.choice(keys), src.choice([0, 1])]]
         if u.startswith("kitem"):
@@ -160,6 +163,15 @@ class Env:
         return 5
 
 
+def _list_eq(a, b):
+    if a is b:
+        return True
+    try:
+        return bool(a == b)
+    except Exception:
+        return False
+
+
 def item_eq(a, b):
     return a is b or (type(a) is type(b) and abs_value(a) == abs_value(b))
 
@@ -169,7 +181,7 @@ class C13(Check):
     LEVEL = "exploration"
     RUNS = {"quick": 3000, "thorough": 60000}
     N_OPS = {"quick": (6, 22), "thorough": (8, 40)}
-    RULE = ("seeded histories over KeyedList for 8 item universes (self-keyed str / int, tuples with an explicit key "
+    RULE = ("seeded histories over KeyedList for 9 item universes (self-keyed str / int, tuples with an explicit key "
             "function, keyed spec items; untyped and KeyedList[T, K]); each operation runs against a plain-list model and, "
             "for universes with a key function, is re-executed with an InjectedFault at every key-function invocation "
             "index. evaluations = operation executions; distinct_nontrivial = distinct (universe, operation, container "
@@ -370,7 +382,7 @@ class C13(Check):
             return "ok", v, nm
         if name in ("remove", "index", "count", "contains"):
             v = args["v"]
-            hits = [i for i, x in enumerate(m) if item_eq(x, v)]
+            hits = [i for i, x in enumerate(m) if _list_eq(x, v)]  # by value = Python equality, as a plain list
             if name == "count":
                 return "ok", len(hits), m
             if name == "contains":
